@@ -9,6 +9,7 @@ import DocsModel.Model.FilterText
 import DocsModel.Model.Migrations
 import DocsModel.Model.Ranger
 import DocsModel.Model.Replica
+import DocsModel.Model.Events
 /-!
 Line-protocol driver: one output line per input line. The Rust harness pipes the same operation
 lines it applied to the real crate and compares the two output streams.
@@ -59,6 +60,8 @@ structure World where
   outcomes : List (Nat × Replica.Outcome) := []
   /-- named snapshots of entry sets (for the join specification) -/
   snaps : List (String × List Entry) := []
+  /-- replicas with subscribers (C12) and the cursor into their applied log -/
+  evs : List (Nat × Events.State × Nat) := []
 
 namespace World
 
@@ -181,6 +184,26 @@ def showStep {S : Type} (st : Step S) (o : Replica.Outcome) : String :=
   "reply " ++ (match st.reply with | some m => showMessage m | none => "none") ++
   " ins " ++ showValues st.inserted ++
   " out " ++ toString o.numRecv ++ " " ++ toString o.numSent ++ " " ++ showHeadsMap o.headsReceived
+
+def showEvent (ev : Events.Event) : String :=
+  if ev.remote then
+    "R~" ++ showEntry ev.entry ++ "~" ++ ev.peer.toHex ++ "~" ++ toString ev.status ++ "~" ++ showBool ev.shouldDownload
+  else "L~" ++ showEntry ev.entry
+
+def showEvents (l : List Events.Event) : String :=
+  "events " ++ toString l.length ++ " " ++ ";".intercalate (l.map showEvent)
+
+def World.getEv (w : World) (sid : Nat) : Option (Events.State × Nat) := w.evs.lookup sid
+def World.setEv (w : World) (sid : Nat) (s : Events.State) (cursor : Nat) : World :=
+  { w with evs := (sid, s, cursor) :: w.evs.filter (·.1 != sid) }
+
+def showReplicaResult : Replica.InsertResult → String
+  | .ok n => "inserted " ++ toString n
+  | .newerEntryExists => "notinserted"
+  | .failed .invalidNamespace => "err:invalid-namespace"
+  | .failed .badSignature => "err:bad-signature"
+  | .failed .tooFarInTheFuture => "err:future"
+  | .failed .invalidEmptyEntry => "err:invalid-empty"
 
 def showInsertResult : Tables.InsertResult → String
   | .inserted n => "inserted " ++ toString n
@@ -406,6 +429,131 @@ def step (w : World) (line : String) : World × String :=
       | none => (w, "no-store")
     | _, _, _, _, _, _ => (w, "bad-op")
   -- snapshots and the join specification of a session
+  -- ---- events and subscribers (Events.lean) ----
+  | ["enew", sid, ns, kind, raw] =>
+    match parseNat? sid, Bytes.ofHex ns, parseNat? kind, Bytes.ofHex raw with
+    | some sid, some ns, some kind, some raw =>
+      (w.setEv sid { t := (Tables.importNamespace {} ns kind raw).1 } 0, "ok")
+    | _, _, _, _ => (w, "bad-op")
+  | ["esub", sid, id] =>
+    match parseNat? sid, parseNat? id with
+    | some sid, some id =>
+      match w.getEv sid with
+      | some (s, c) => (w.setEv sid (Events.subscribe s id) c, "ok")
+      | none => (w, "no-store")
+    | _, _ => (w, "bad-op")
+  | ["eunsub", sid, id] =>
+    match parseNat? sid, parseNat? id with
+    | some sid, some id =>
+      match w.getEv sid with
+      | some (s, c) => (w.setEv sid (Events.unsubscribe s id) c, "ok")
+      | none => (w, "no-store")
+    | _, _ => (w, "bad-op")
+  | ["edrop", sid, id] =>
+    match parseNat? sid, parseNat? id with
+    | some sid, some id =>
+      match w.getEv sid with
+      | some (s, c) => (w.setEv sid (Events.dropReceiver s id) c, "ok")
+      | none => (w, "no-store")
+    | _, _ => (w, "bad-op")
+  | ["elocal", sid, tok] =>
+    match parseNat? sid, parseEntry? tok with
+    | some sid, some e =>
+      match w.getEv sid with
+      | some (s, c) =>
+        let (s', r) := Events.localInsert s e
+        (w.setEv sid s' c, showInsertResult r)
+      | none => (w, "no-store")
+    | _, _ => (w, "bad-op")
+  | ["eremote", sid, ns, now, peer, status, tok] =>
+    match parseNat? sid, Bytes.ofHex ns, parseNat? now, Bytes.ofHex peer, parseNat? status, parseEntry? tok with
+    | some sid, some ns, some now, some peer, some status, some e =>
+      match w.getEv sid with
+      | some (s, c) =>
+        let (s', r) := Events.remoteInsert s ns now e peer status
+        (w.setEv sid s' c, showReplicaResult r)
+      | none => (w, "no-store")
+    | _, _, _, _, _, _ => (w, "bad-op")
+  | ["emsg", sid, ns, now, peer, msg] =>
+    match parseNat? sid, Bytes.ofHex ns, parseNat? now, Bytes.ofHex peer, parseMessage? msg with
+    | some sid, some ns, some now, some peer, some msg =>
+      match w.getEv sid with
+      | some (s, c) =>
+        let (s', st, o) := Events.syncProcess {} s ns now msg peer {}
+        (w.setEv sid s' c, showStep st o)
+      | none => (w, "no-store")
+    | _, _, _, _, _ => (w, "bad-op")
+  -- the same requests as answered through the store actor (no removal count, no inserted list)
+  | ["elocalres", sid, tok] =>
+    match parseNat? sid, parseEntry? tok with
+    | some sid, some e =>
+      match w.getEv sid with
+      | some (s, c) =>
+        let (s', r) := Events.localInsert s e
+        (w.setEv sid s' c, match r with | .inserted _ => "inserted" | _ => "notinserted")
+      | none => (w, "no-store")
+    | _, _ => (w, "bad-op")
+  | ["eremoteres", sid, ns, now, peer, status, tok] =>
+    match parseNat? sid, Bytes.ofHex ns, parseNat? now, Bytes.ofHex peer, parseNat? status, parseEntry? tok with
+    | some sid, some ns, some now, some peer, some status, some e =>
+      match w.getEv sid with
+      | some (s, c) =>
+        let (s', r) := Events.remoteInsert s ns now e peer status
+        (w.setEv sid s' c, match r with | .ok _ => "inserted" | .newerEntryExists => "notinserted" | .failed _ => "err:validation")
+      | none => (w, "no-store")
+    | _, _, _, _, _, _ => (w, "bad-op")
+  | ["emsgres", sid, ns, now, peer, msg] =>
+    match parseNat? sid, Bytes.ofHex ns, parseNat? now, Bytes.ofHex peer, parseMessage? msg with
+    | some sid, some ns, some now, some peer, some msg =>
+      match w.getEv sid with
+      | some (s, c) =>
+        let (s', st, o) := Events.syncProcess {} s ns now msg peer {}
+        (w.setEv sid s' c, "reply " ++ (match st.reply with | some m => showMessage m | none => "none") ++
+          " out " ++ toString o.numRecv ++ " " ++ toString o.numSent ++ " " ++ showHeadsMap o.headsReceived)
+      | none => (w, "no-store")
+    | _, _, _, _, _ => (w, "bad-op")
+  | ["sdeltaskip", sid] =>
+    match parseNat? sid with
+    | some sid =>
+      match w.getEv sid with
+      | some (s, _) => (w.setEv sid s s.applied.length, "ok")
+      | none => (w, "no-store")
+    | none => (w, "bad-op")
+  | ["epolicy", sid, ns, pol] =>
+    match parseNat? sid, Bytes.ofHex ns, parsePolicy? pol with
+    | some sid, some ns, some pol =>
+      match w.getEv sid with
+      | some (s, c) =>
+        match Tables.setDownloadPolicy s.t ns pol with
+        | some t' => (w.setEv sid { s with t := t' } c, "ok")
+        | none => (w, "err:no-document")
+      | none => (w, "no-store")
+    | _, _, _ => (w, "bad-op")
+  -- what a subscriber channel has received since it was last drained
+  | ["einbox", sid, id] =>
+    match parseNat? sid, parseNat? id with
+    | some sid, some id =>
+      match w.getEv sid with
+      | some (s, c) =>
+        let got := Events.inboxOf s id
+        (w.setEv sid { s with inbox := s.inbox.filter (·.1 != id) } c, showEvents got)
+      | none => (w, "no-store")
+    | _, _ => (w, "bad-op")
+  -- specification: the entries applied since the last call, as events, in order
+  | ["sdelta", sid] =>
+    match parseNat? sid with
+    | some sid =>
+      match w.getEv sid with
+      | some (s, c) => (w.setEv sid s s.applied.length, showEvents (s.applied.drop c))
+      | none => (w, "no-store")
+    | none => (w, "bad-op")
+  | ["edump", sid, ns] =>
+    match parseNat? sid, Bytes.ofHex ns with
+    | some sid, some ns =>
+      match w.getEv sid with
+      | some (s, _) => (w, showEntries (Tables.query s.t ns { includeEmpty := true }))
+      | none => (w, "no-store")
+    | _, _ => (w, "bad-op")
   -- specification of C03: an entry that was accepted must be valid
   | ["simplies", accepted, ns, now, tok] =>
     match parseBool? accepted, Bytes.ofHex ns, parseNat? now, parseEntry? tok with
